@@ -79,6 +79,11 @@ VARIANTS = {
              'C02.e', 'List._sym_rebind#order'),
         fire('drop-lower-range-test', L, 'List.__delitem__',
              'if index < -len(self) or index >= len(self):', 'if index >= len(self):', 'C02.c', 'List.__delitem__'),
+        fire('slice-defaults-ignore-step', L, 'List._parse_slice', 'return index.indices(len(self))',
+             'start = index.start if index.start is not None else 0\n    stop = index.stop if index.stop is not None else len(self)\n    step = index.step if index.step is not None else 1\n    return (start, stop, step)',
+             'C02.a', 'List._parse_slice'),
+        fire('update-keys-parsed-as-paths', D, 'Dict.update', '{utils.KeyPath(k): v for k, v in updates.items()}', 'updates', 'C02.b', 'Dict.update'),
+        silent('slice-param-renamed', L, 'List._parse_slice', 'index', 'slc', count=0),
         silent('rename-lambda-var', L, 'List._sym_rebind', 'key=lambda x: x[0]', 'key=lambda kv: kv[0]'),
     ],
     'C03': [
@@ -161,6 +166,12 @@ VARIANTS = {
         fire('notify-ignores-flag', L, 'List.insert', 'if flags.is_change_notification_enabled() and update:', 'if update:', 'C09.f', 'List.insert'),
         fire('ancestor-walk-stops', B, 'Symbolic._notify_field_updates', 'target = target.sym_parent', 'target = None', 'C09.e', 'ancestor-walk'),
         fire('update-payload-wrong-old', L, 'List._set_item_without_permission_check', 'old_value, new_value)', 'new_value, new_value)', 'C09.d', 'List._set_item_without_permission_check'),
+        fire('update-skips-notification', D, 'Dict.update', 'raise_on_no_change=False)', 'raise_on_no_change=False, skip_notification=True)', 'C09.c', 'Dict.update'),
+        fire('sort-without-notify', L, 'List.sort', 'self._notify_repositioned(old_values)', 'pass', 'C09.a', 'List.sort'),
+        fire('notify-helper-returns-early', L, 'List._notify_repositioned', 'if updates:\n        self._notify_field_updates(updates)', 'if len(updates) > 1:\n        self._notify_field_updates(updates)', 'C09.a', 'List.reverse'),
+        fire('dict-clear-without-notify', D, 'Dict.clear', 'if updates:\n            self._notify_field_updates(updates)', 'pass', 'C09.a', 'Dict.clear'),
+        fire('popitem-ignores-flag', D, 'Dict.popitem', 'if flags.is_change_notification_enabled():', 'if True:', 'C09.f', 'Dict.popitem'),
+        silent('notify-helper-inlined-name', L, '<module>', '_notify_repositioned', '_emit_position_changes', count=0),
         silent('rename-local-update-insert', L, 'List.insert', 'update = ', 'upd = ',
                more=[('and update:', 'and upd:'), ('[update]', '[upd]')]),
     ],
@@ -206,6 +217,8 @@ VARIANTS = {
         silent('rename-local-children', EM, 'Uniform.mutate', 'new_child_value', 'ncv', count=0),
     ],
     'C15': [
+        fire('dedup-replays-inner', GD, 'Deduping.recover', 'self.generator.recover(history)',
+             'for i, (d, r) in enumerate(history):\n        self.generator._replay(i, d, r)', 'C15.a', 'Deduping'),
         fire('replay-skips-cache', GD, 'Deduping._replay', 'self._add_dna_to_cache(dna, reward)', 'pass', 'C15.b', 'Deduping._replay#cache'),
         fire('seed-truthiness', GR, 'Random._replay', 'if self.seed is not None:', 'if self.seed:', 'C15.d', 'Random._replay'),
         fire('recover-skips-feedback-counter', EB, 'Evolution.recover', 'self._num_feedbacks += 1', 'pass', 'C15.c', 'Evolution.recover'),
